@@ -4,6 +4,7 @@ import (
 	"encoding/json"
 	"fmt"
 	"math/rand"
+	"os"
 	"sort"
 	"strings"
 
@@ -27,6 +28,8 @@ type oracleInput struct {
 	Seed   int64 `json:"seed"`
 	Edits  int   `json:"edits"`
 	Boards bool  `json:"boards,omitempty"`
+	Gen    int   `json:"gen,omitempty"` // 0/1: one block per object, everything tagged; 2: oracleProgram2
+	Script int   `json:"script,omitempty"` // 1-based index into oracleScripts: a written program and edit list
 }
 
 func init() { register("oracle", driveOracle) }
@@ -55,16 +58,52 @@ type snap struct {
 	Edges []snapEdge `json:"edges"`
 }
 
-func labOf(o *d2graph.Object) string {
-	if o.Tooltip != nil && strings.HasPrefix(o.Tooltip.Value, "T") {
-		return o.Tooltip.Value
+func hasTag(o *d2graph.Object) bool {
+	return o.Tooltip != nil && strings.HasPrefix(o.Tooltip.Value, "T")
+}
+
+// labelsOf gives every object of a board its identity: the tooltip tag when it has one; else, for an
+// object that only exists as the end of tagged connections, the smallest "<connection tag>:src|dst";
+// else its lower-cased absolute ID (an implicit container: the driver never applies an edit that is
+// meant to change such an ID).
+func labelsOf(g *d2graph.Graph) map[*d2graph.Object]string {
+	m := map[*d2graph.Object]string{}
+	for _, o := range g.Objects {
+		if hasTag(o) {
+			m[o] = o.Tooltip.Value
+		}
 	}
-	return "id:" + strings.ToLower(o.AbsID())
+	for _, e := range g.Edges {
+		if !strings.HasPrefix(e.Label.Value, "E") {
+			continue
+		}
+		for _, end := range []struct {
+			o *d2graph.Object
+			s string
+		}{{e.Src, ":src"}, {e.Dst, ":dst"}} {
+			if hasTag(end.o) {
+				continue
+			}
+			c := e.Label.Value + end.s
+			if cur, ok := m[end.o]; !ok || c < cur {
+				m[end.o] = c
+			}
+		}
+	}
+	for _, o := range g.Objects {
+		if _, ok := m[o]; !ok {
+			m[o] = "id:" + strings.ToLower(o.AbsID())
+		}
+	}
+	m[g.Root] = ""
+	return m
 }
 
 func snapshot2(g *d2graph.Graph) snap {
 	s := snap{Objs: []snapObj{}, Edges: []snapEdge{}}
 	b := proj.Graph(g, nil)
+	labs := labelsOf(g)
+	labOf := func(o *d2graph.Object) string { return labs[o] }
 	for i, o := range g.Objects {
 		par := ""
 		if o.Parent != nil && o.Parent != g.Root {
@@ -118,7 +157,7 @@ func boardDigests(g *d2graph.Graph, bp []string) [][]string {
 	return res
 }
 
-var oracleValues = []string{"plain", "two words", "null", "NULL", "true", "suspend", "a.b", "x -> y", "quo\"te", "it's", "42", "0.5", "", " lead", "ünï", "#hash", "semi;colon", "{brace}", "$dollar", "${x}", "a: b", "|pipe|", "*", "&amp;", "layers", "shape"}
+var oracleValues = []string{"plain", "two words", "null", "NULL", "true", "suspend", "a.b", "x -> y", "quo\"te", "it's", "42", "0.5", "", " lead", "ünï", "#hash", "semi;colon", "{brace}", "$dollar", "${x}", "a: b", "|pipe|", "*", "&amp;", "layers", "shape", "Class", "Label", "LINK", "Near", "Steps", "True", "Suspend", "Null", "_", "1e3", "007", "+5", "0x1F", "a\\nb", "tab\there", "\\", "trailing ", "-", "--", "->", "a - b", "@x", "...@x", "[x]", "(x)", "x)", "'single'", "`tick`", "<lt", "line\nbreak"}
 var oracleShapes = []string{"circle", "oval", "diamond", "hexagon", "cloud", "rectangle"}
 
 func oracleProgram(r *rand.Rand, boards bool) string {
@@ -207,6 +246,14 @@ func driveOracle(c *Ctx) error {
 		for i := lo; i < hi; i++ {
 			inputs = append(inputs, oracleInput{Seed: int64(i) + 1, Edits: 1 + i%8, Boards: boards})
 		}
+		for i := lo; i < hi; i++ {
+			inputs = append(inputs, oracleInput{Seed: int64(i) + 1, Edits: 1 + i%6, Boards: boards, Gen: 2})
+		}
+		if !boards {
+			for i := range oracleScripts {
+				inputs = append(inputs, oracleInput{Seed: 1, Script: i + 1})
+			}
+		}
 	}
 	for _, in := range inputs {
 		evs, nt := oracleRun(in)
@@ -231,7 +278,22 @@ func opsList(evs []tr.M) []string {
 func oracleRun(in oracleInput) (evs []tr.M, nt []string) {
 	r := rand.New(rand.NewSource(in.Seed*977 + 5))
 	text := oracleProgram(r, in.Boards)
+	if in.Gen == 2 {
+		text = oracleProgram2(r, in.Boards)
+	}
+	var script *oracleScript
+	if in.Script > 0 && in.Script <= len(oracleScripts) {
+		script = &oracleScripts[in.Script-1]
+		text = script.Text
+		in.Edits = len(script.Ops)
+		in.Gen = 2
+	}
 	g, _, err := d2compiler.Compile("o.d2", strings.NewReader(text), nil)
+	for try := 0; err != nil && in.Gen == 2 && try < 8; try++ {
+		// a few generated combinations are not valid D2 (an attribute the shape does not take, ...): next draw
+		text = oracleProgram2(r, in.Boards)
+		g, _, err = d2compiler.Compile("o.d2", strings.NewReader(text), nil)
+	}
 	evs = append(evs, tr.M{"ev": "init", "text": text, "ok": tr.B(err == nil)})
 	if err != nil {
 		evs[0]["msg"] = firstN(err.Error(), 200)
@@ -239,6 +301,22 @@ func oracleRun(in oracleInput) (evs []tr.M, nt []string) {
 	}
 	ntset := map[string]bool{}
 	curText := text
+	// objects the generated program leaves without a tag (ends of connections, implicit containers) stay
+	// untagged; objects that edits create are tagged before the next edit
+	keepUntagged := map[string]bool{}
+	for _, b := range proj.Boards(g) {
+		names := []string{}
+		for i := 1; i < len(b.Path); i += 2 {
+			names = append(names, b.Path[i])
+		}
+		if bg := d2oracle.GetBoardGraph(g, names); bg != nil {
+			for _, o := range bg.Objects {
+				if !hasTag(o) {
+					keepUntagged[strings.ToLower(o.AbsID())] = true
+				}
+			}
+		}
+	}
 	fresh := 0
 	boardPaths := [][]string{nil}
 	if in.Boards {
@@ -246,6 +324,11 @@ func oracleRun(in oracleInput) (evs []tr.M, nt []string) {
 	}
 	for step := 0; step < in.Edits; step++ {
 		bp := boardPaths[r.Intn(len(boardPaths))]
+		var sc *scriptOp
+		if script != nil {
+			sc = &script.Ops[step]
+			bp = sc.Board
+		}
 		bg := d2oracle.GetBoardGraph(g, bp)
 		if bg == nil {
 			break
@@ -256,9 +339,40 @@ func oracleRun(in oracleInput) (evs []tr.M, nt []string) {
 			"compiles": 0, "sameAsReturned": 0, "fmtFixed": 0, "targetInBase": 0}
 		var g2 *d2graph.Graph
 		var eerr error
+		// generator 2 aims the first edit of a history: which kind of object it prefers as its target
+		focus := ""
+		if in.Gen == 2 && step == 0 {
+			focus = []string{"container", "untagged", "container", "nested", "", ""}[in.Seed%6]
+		}
 		pickObj := func() *snapObj {
 			if len(before.Objs) == 0 {
 				return nil
+			}
+			if sc != nil {
+				for i := range before.Objs {
+					if strings.EqualFold(before.Objs[i].ID, sc.Key) {
+						return &before.Objs[i]
+					}
+				}
+				return nil
+			}
+			if focus != "" {
+				var cand []int
+				for i, o := range before.Objs {
+					kids := false
+					for _, x := range before.Objs {
+						if x.Parent == o.Lab {
+							kids = true
+						}
+					}
+					switch {
+					case focus == "container" && kids, focus == "untagged" && !strings.HasPrefix(o.Lab, "T"), focus == "nested" && strings.Count(o.ID, ".") >= 2:
+						cand = append(cand, i)
+					}
+				}
+				if len(cand) > 0 {
+					return &before.Objs[cand[r.Intn(len(cand))]]
+				}
 			}
 			return &before.Objs[r.Intn(len(before.Objs))]
 		}
@@ -266,9 +380,50 @@ func oracleRun(in oracleInput) (evs []tr.M, nt []string) {
 			if len(before.Edges) == 0 {
 				return nil
 			}
+			if sc != nil {
+				for i := range before.Edges {
+					if before.Edges[i].ID == sc.Key {
+						return &before.Edges[i]
+					}
+				}
+				return nil
+			}
 			return &before.Edges[r.Intn(len(before.Edges))]
 		}
 		op := []string{"create", "create-edge", "set-label", "set-style", "set-shape", "delete", "delete-edge", "delete-attr", "rename", "move", "move", "reconnect", "set-edge"}[r.Intn(13)]
+		if in.Gen == 2 {
+			ops2 := []string{"create", "create-edge", "set-label", "set-attr", "set-attr", "set-shape", "set-edge", "delete", "delete", "delete-edge", "delete-attr", "delete-edge-attr",
+				"rename", "rename", "move", "move", "move", "reconnect"}
+			op = ops2[r.Intn(len(ops2))]
+			if step == 0 && in.Seed%6 < 4 {
+				op = []string{"delete", "move", "move", "move"}[in.Seed%6]
+			}
+		}
+		if sc != nil {
+			op = sc.Op
+		}
+		isT := func(lab string) bool { return strings.HasPrefix(lab, "T") }
+		// an edit that is meant to change the ID of an object identified by its ID, or to remove the connection
+		// an object is identified by, is not applied: the identity could not be followed across it
+		idBelow := func(o *snapObj) bool {
+			lo := strings.ToLower(o.ID)
+			for _, x := range before.Objs {
+				if lx := strings.ToLower(x.ID); strings.HasPrefix(x.Lab, "id:") && (lx == lo || strings.HasPrefix(lx, lo+".")) {
+					return true
+				}
+			}
+			return false
+		}
+		untaggedEnd := func(e *snapEdge) bool { return !isT(e.Src) || !isT(e.Dst) }
+		attachedToUntagged := func(o *snapObj) bool {
+			for i := range before.Edges {
+				e := &before.Edges[i]
+				if (e.Src == o.Lab || e.Dst == o.Lab) && untaggedEnd(e) && !(e.Src == o.Lab && e.Dst == o.Lab) {
+					return true
+				}
+			}
+			return false
+		}
 		func() {
 			defer func() {
 				if p := recover(); p != nil {
@@ -307,6 +462,9 @@ func oracleRun(in oracleInput) (evs []tr.M, nt []string) {
 				}
 				var tag *string
 				val := oracleValues[r.Intn(len(oracleValues))]
+				if sc != nil {
+					val = sc.Arg
+				}
 				key := o.ID
 				switch op {
 				case "set-style":
@@ -322,18 +480,49 @@ func oracleRun(in oracleInput) (evs []tr.M, nt []string) {
 				}
 				ev["op"], ev["key"], ev["arg"], ev["target"] = op, key, val, o.Lab
 				g2, eerr = d2oracle.Set(g, bp, key, tag, &val)
+			case "set-attr":
+				o := pickObj()
+				if o == nil {
+					return
+				}
+				a := oracleObjAttrs[r.Intn(len(oracleObjAttrs))]
+				val := a.vals[r.Intn(len(a.vals))]
+				if sc != nil {
+					a.key, val, _ = strings.Cut(sc.Arg, "=")
+				}
+				ev["op"], ev["key"], ev["arg"], ev["target"], ev["tag"] = op, o.ID+"."+a.key, val, o.Lab, projKey(a.key)
+				g2, eerr = d2oracle.Set(g, bp, o.ID+"."+a.key, nil, &val)
 			case "set-edge":
 				e := pickEdge()
 				if e == nil {
 					return
 				}
+				attr := "style.stroke"
 				val := []string{"red", "blue", "\"#00ff00\""}[r.Intn(3)]
 				val = strings.Trim(val, "\"")
-				ev["op"], ev["key"], ev["arg"], ev["target"], ev["tag"] = op, e.ID+".style.stroke", val, e.Lab, "style.stroke"
-				g2, eerr = d2oracle.Set(g, bp, e.ID+".style.stroke", nil, &val)
+				if in.Gen == 2 {
+					a := oracleEdgeAttrs[r.Intn(len(oracleEdgeAttrs))]
+					attr, val = a.key, a.vals[r.Intn(len(a.vals))]
+				}
+				ev["op"], ev["key"], ev["arg"], ev["target"], ev["tag"] = op, e.ID+"."+attr, val, e.Lab, projKey(attr)
+				g2, eerr = d2oracle.Set(g, bp, e.ID+"."+attr, nil, &val)
+			case "delete-edge-attr":
+				e := pickEdge()
+				if e == nil || len(e.Attrs) == 0 {
+					return
+				}
+				attr := d2Key(e.Attrs[r.Intn(len(e.Attrs))][0])
+				if attr == "" {
+					return
+				}
+				ev["op"], ev["key"], ev["target"], ev["tag"] = op, e.ID+"."+attr, e.Lab, projKey(attr)
+				g2, eerr = d2oracle.Delete(g, bp, e.ID+"."+attr)
 			case "delete":
 				o := pickObj()
 				if o == nil {
+					return
+				}
+				if idBelow(o) || attachedToUntagged(o) {
 					return
 				}
 				ev["op"], ev["key"], ev["target"] = op, o.ID, o.Lab
@@ -344,6 +533,9 @@ func oracleRun(in oracleInput) (evs []tr.M, nt []string) {
 			case "delete-edge":
 				e := pickEdge()
 				if e == nil {
+					return
+				}
+				if untaggedEnd(e) {
 					return
 				}
 				ev["op"], ev["key"], ev["target"] = op, e.ID, e.Lab
@@ -358,11 +550,24 @@ func oracleRun(in oracleInput) (evs []tr.M, nt []string) {
 				}
 				// the attributes d2oracle.Delete handles: style keywords, width/height, link, near, icon, top/left
 				attr := []string{"style.opacity", "width", "link", "style.stroke"}[r.Intn(4)]
-				ev["op"], ev["key"], ev["target"], ev["tag"] = op, o.ID+"."+attr, o.Lab, attr
+				if in.Gen == 2 && len(o.Attrs) > 0 && r.Intn(4) != 0 {
+					// d2oracle.Delete handles style.*, near, icon, width, height, top, left and link; other reserved keys are ignored by design
+					attr = d2Key(o.Attrs[r.Intn(len(o.Attrs))][0])
+					if !(strings.HasPrefix(attr, "style.") || attr == "near" || attr == "icon" || attr == "width" || attr == "height" || attr == "top" || attr == "left" || attr == "link") {
+						return
+					}
+				}
+				if sc != nil {
+					attr = sc.Arg
+				}
+				ev["op"], ev["key"], ev["target"], ev["tag"] = op, o.ID+"."+attr, o.Lab, projKey(attr)
 				g2, eerr = d2oracle.Delete(g, bp, o.ID+"."+attr)
 			case "rename":
 				o := pickObj()
 				if o == nil {
+					return
+				}
+				if idBelow(o) {
 					return
 				}
 				fresh++
@@ -377,6 +582,9 @@ func oracleRun(in oracleInput) (evs []tr.M, nt []string) {
 				} else if r.Intn(4) == 0 {
 					nn = []string{"x y", "a.b", "null", "1", "ünï"}[r.Intn(5)]
 				}
+				if sc != nil {
+					nn = sc.Arg
+				}
 				ev["op"], ev["key"], ev["arg"], ev["target"] = op, o.ID, nn, o.Lab
 				if d, err := d2oracle.RenameIDDeltas(g, bp, o.ID, nn); err == nil {
 					ev["deltas"], ev["hasDeltas"] = deltaPairs(d), 1
@@ -387,6 +595,9 @@ func oracleRun(in oracleInput) (evs []tr.M, nt []string) {
 			case "move":
 				o := pickObj()
 				if o == nil {
+					return
+				}
+				if idBelow(o) {
 					return
 				}
 				dest := o.Name
@@ -402,6 +613,17 @@ func oracleRun(in oracleInput) (evs []tr.M, nt []string) {
 					return
 				}
 				incl := r.Intn(2) == 0
+				if sc != nil {
+					dest, incl = sc.Arg, sc.Flag
+					ev["arg2"] = ""
+					if i := strings.LastIndex(dest, "."); i >= 0 {
+						for _, x := range before.Objs {
+							if strings.EqualFold(x.ID, dest[:i]) {
+								ev["arg2"] = x.Lab
+							}
+						}
+					}
+				}
 				ev["op"], ev["key"], ev["arg"], ev["flag"], ev["target"] = op, o.ID, dest, tr.B(incl), o.Lab
 				if len(bp) == 0 {
 					if d, err := d2oracle.MoveIDDeltas(g, o.ID, dest, incl); err == nil {
@@ -412,7 +634,7 @@ func oracleRun(in oracleInput) (evs []tr.M, nt []string) {
 			case "reconnect":
 				e := pickEdge()
 				o := pickObj()
-				if e == nil || o == nil {
+				if e == nil || o == nil || untaggedEnd(e) || !isT(o.Lab) {
 					return
 				}
 				var src, dst *string
@@ -504,6 +726,9 @@ func oracleRun(in oracleInput) (evs []tr.M, nt []string) {
 			ev["fmtFixed"] = tr.B(d2format.Format(m) == out)
 		}
 		ev["text"] = firstN(out, 600)
+		if os.Getenv("VERIF_FULLTEXT") != "" {
+			ev["text"] = out
+		}
 		evs = append(evs, ev)
 		g = g2
 		// give every object the edit created a tooltip of its own (identity for the following edits; not an event)
@@ -511,7 +736,7 @@ func oracleRun(in oracleInput) (evs []tr.M, nt []string) {
 			bgx := d2oracle.GetBoardGraph(g, bp)
 			tagged := false
 			for _, o := range bgx.Objects {
-				if o.Tooltip == nil || !strings.HasPrefix(o.Tooltip.Value, "T") {
+				if !hasTag(o) && !keepUntagged[strings.ToLower(o.AbsID())] {
 					fresh++
 					tv := fmt.Sprintf("T%d", 1000+fresh)
 					if g4, err := d2oracle.Set(g, bp, o.AbsID()+".tooltip", nil, &tv); err == nil {
@@ -541,9 +766,9 @@ func oracleRun(in oracleInput) (evs []tr.M, nt []string) {
 		curText = d2format.Format(g.AST)
 		ntset["C36"] = true
 		switch op {
-		case "create", "create-edge", "set-label", "set-style", "set-shape", "set-edge":
+		case "create", "create-edge", "set-label", "set-style", "set-shape", "set-edge", "set-attr":
 			ntset["C37"] = true
-		case "delete", "delete-edge", "delete-attr":
+		case "delete", "delete-edge", "delete-attr", "delete-edge-attr":
 			ntset["C38"] = true
 		case "rename", "move":
 			ntset["C39"] = true
@@ -560,6 +785,62 @@ func oracleRun(in oracleInput) (evs []tr.M, nt []string) {
 	}
 	sort.Strings(nt)
 	return evs, nt
+}
+
+// projKey maps a D2 attribute key to the name the projection (the JSON tags of d2graph.Style) uses;
+// d2Key is its inverse, "" for projected facts that are not plain attribute keys.
+func camel(k string) string {
+	parts := strings.Split(k, "-")
+	for i := 1; i < len(parts); i++ {
+		if parts[i] != "" {
+			parts[i] = strings.ToUpper(parts[i][:1]) + parts[i][1:]
+		}
+	}
+	return strings.Join(parts, "")
+}
+
+func kebab(k string) string {
+	var sb strings.Builder
+	for _, c := range k {
+		if c >= 'A' && c <= 'Z' {
+			sb.WriteByte('-')
+			sb.WriteRune(c - 'A' + 'a')
+		} else {
+			sb.WriteRune(c)
+		}
+	}
+	return sb.String()
+}
+
+func projKey(k string) string {
+	for _, pre := range []string{"source-arrowhead.", "target-arrowhead."} {
+		if strings.HasPrefix(k, pre+"style.") {
+			return pre + camel(strings.TrimPrefix(k, pre+"style."))
+		}
+	}
+	if strings.HasPrefix(k, "style.") {
+		return "style." + camel(strings.TrimPrefix(k, "style."))
+	}
+	return k
+}
+
+func d2Key(k string) string {
+	switch {
+	case strings.HasPrefix(k, "iconstyle."), k == "language", k == "constraint", k == "class", k == "label.near", k == "icon.near", k == "tooltip.near", k == "sql.columns", k == "class.members", k == "tooltip":
+		return ""
+	case strings.HasPrefix(k, "style."):
+		return "style." + kebab(strings.TrimPrefix(k, "style."))
+	}
+	for _, pre := range []string{"source-arrowhead.", "target-arrowhead."} {
+		if strings.HasPrefix(k, pre) {
+			rest := strings.TrimPrefix(k, pre)
+			if rest == "label" || rest == "shape" {
+				return k
+			}
+			return pre + "style." + kebab(rest)
+		}
+	}
+	return k
 }
 
 func deltaPairs(d map[string]string) [][]string {
